@@ -52,21 +52,28 @@ func NewCheck(prop, level string) *Check {
 	return c
 }
 
+// LoadKnown reads known_findings.json and known_findings.d/*.json (same format).
 func LoadKnown(prop string) []KnownFinding {
-	b, err := os.ReadFile(filepath.Join(Root(), "known_findings.json"))
-	if err != nil {
-		return nil
-	}
-	var all struct {
-		Findings []KnownFinding `json:"findings"`
-	}
-	if err := json.Unmarshal(b, &all); err != nil {
-		Infra("known_findings.json: %v", err)
-	}
+	files := []string{filepath.Join(Root(), "known_findings.json")}
+	more, _ := filepath.Glob(filepath.Join(Root(), "known_findings.d", "*.json"))
+	sort.Strings(more)
+	files = append(files, more...)
 	var out []KnownFinding
-	for _, k := range all.Findings {
-		if k.Property == prop {
-			out = append(out, k)
+	for _, f := range files {
+		b, err := os.ReadFile(f)
+		if err != nil {
+			continue
+		}
+		var all struct {
+			Findings []KnownFinding `json:"findings"`
+		}
+		if err := json.Unmarshal(b, &all); err != nil {
+			Infra("%s: %v", f, err)
+		}
+		for _, k := range all.Findings {
+			if k.Property == prop {
+				out = append(out, k)
+			}
 		}
 	}
 	return out
@@ -111,7 +118,7 @@ func (c *Check) Violate(key, detail string, replay any) {
 	if replay != nil {
 		b, _ := json.MarshalIndent(map[string]any{"property": c.Prop, "key": key, "detail": detail, "scenario": replay}, "", " ")
 		h := sha256.Sum256(b)
-		dir := filepath.Join(Root(), "evidence", "replay")
+		dir := filepath.Join(EvidenceDir(), "replay")
 		_ = os.MkdirAll(dir, 0o755)
 		path = filepath.Join(dir, fmt.Sprintf("%s-%s.json", c.Prop, hex.EncodeToString(h[:6])))
 		_ = os.WriteFile(path, b, 0o644)
@@ -172,7 +179,7 @@ func (c *Check) Finish() {
 	nv := len(c.viol)
 	c.mu.Unlock()
 	b, _ := json.MarshalIndent(ev, "", " ")
-	dir := filepath.Join(Root(), "evidence")
+	dir := EvidenceDir()
 	_ = os.MkdirAll(dir, 0o755)
 	if err := os.WriteFile(filepath.Join(dir, c.Prop+".json"), b, 0o644); err != nil {
 		Infra("write evidence: %v", err)
